@@ -38,3 +38,43 @@ class Sleeper:
             time.sleep(self.seconds)
         _log(f'f{self.k}')
         return self.k
+
+
+# ---- tasks that spend their time inside the SAVE (C13 end-to-end: double Ctrl-C while saving)
+def exit143(signum, frame):
+    """the usual graceful-shutdown handler: SIGTERM -> SystemExit, so that cleanup code runs"""
+    _log(f'u{os.getpid()}')
+    import sys
+    sys.exit(143)
+
+
+class SlowResult:
+    """a result whose FIRST pickling (= the save in the worker) blocks for `seconds`: the save is reliably in progress -
+    metadata written, result file open - when the worker is terminated"""
+
+    def __init__(self, k, seconds):
+        self.k, self.seconds = k, seconds
+
+    def __reduce__(self):
+        if self.seconds and os.environ.get('VERIF_RT_SLOWSAVE') == '1':
+            seconds, self.seconds = self.seconds, 0
+            _log(f'p{self.k}')
+            time.sleep(seconds)      # terminated, or interrupted by the handler's SystemExit, here
+            _log(f'q{self.k}')
+        return (SlowResult, (self.k, 0))
+
+
+@labtech.task
+class SlowSaver:
+    k: int
+    seconds: float
+    own_handler: bool = False
+
+    def run(self):
+        if self.own_handler:
+            import signal
+            signal.signal(signal.SIGTERM, exit143)      # task code that wants its own cleanup to run on termination
+        _log(f's{self.k}')
+        _log(f'w{os.getpid()}')
+        _log(f'f{self.k}')
+        return SlowResult(self.k, self.seconds)
